@@ -501,6 +501,31 @@ func c08Containers(c *mon.Ctx) {
 			c.Violation("C08 filter-selection-differs hidden-containers", "Filter.Execute kept different elements on data that differ only in hidden fields", map[string]any{"expression": fe, "kept1": lenOf(x1.out), "kept2": lenOf(x2.out), "err1": fmt.Sprint(x1.err), "err2": fmt.Sprint(x2.err)})
 		}
 	}
+	// element types that are comparable at the type level although a hidden
+	// interface field may hold something that is not: runs of equal elements
+	type cmp struct {
+		Label  string
+		Extra  interface{} `bexpr:"-" alt:"-"`
+		secret interface{}
+		N      int
+	}
+	run1 := []cmp{{"l", map[string]int{"a": 1}, []int{1}, 1}, {"l", map[string]int{"a": 1}, []int{1}, 1}, {"l", map[string]int{"a": 1}, []int{1}, 1}, {"x", nil, nil, 2}}
+	run2 := []cmp{{"l", "plain", 7, 1}, {"l", "plain", 7, 1}, {"l", "other", 8, 1}, {"x", nil, nil, 2}}
+	arr1, arr2 := [3]cmp{run1[0], run1[1], run1[3]}, [3]cmp{run2[0], run2[1], run2[3]}
+	for _, fe := range []string{`Label == l`, `N == 1 and Label != x`, `Label == x or N == 1`} {
+		f, _ := bexpr.CreateFilter(fe)
+		if f == nil {
+			continue
+		}
+		for _, pr := range [][2]interface{}{{run1, run2}, {arr1, arr2}, {map[string]cmp{"a": run1[0], "b": run1[1]}, map[string]cmp{"a": run2[0], "b": run2[1]}}} {
+			x1, x2 := execute(f, pr[0]), execute(f, pr[1])
+			c.Evals(2)
+			if x1.panic != "" || x2.panic != "" || lenOf(x1.out) != lenOf(x2.out) || (x1.err == nil) != (x2.err == nil) {
+				c.Violation("C08 filter-selection-differs comparable-elements", "Filter.Execute behaves differently on runs of equal elements that differ only in what their hidden / unexported interface fields hold",
+					map[string]any{"expression": fe, "container": fmt.Sprintf("%T", pr[0]), "kept1": lenOf(x1.out), "kept2": lenOf(x2.out), "panic1": x1.panic, "panic2": x2.panic, "err1": fmt.Sprint(x1.err), "err2": fmt.Sprint(x2.err)})
+			}
+		}
+	}
 	c.Count("hidden_container_scenarios")
 }
 
